@@ -22,6 +22,7 @@ OBLIGATIONS = [
     (P + "device_conservation", "either device, every io mode incl. raw, any buffer size, every sequence of sputn/sputc/sync/flush/setbuf/full_buffering: after close nothing buffered, bytes passed on = input (raw: minus its header block), eof exactly once with the last write -- and ANY number of later flushes/setbufs sends no byte and no second eof"),
     (P + "device_conservation_running", "at every moment (non-raw): passed to connection::write ++ buffered = written into the device"),
     (P + "raw_header_block_stripped", "raw modes: of a stream starting with a CGI header block the device passes on exactly what follows it; the lines reach set_response_headers via add_header in order"),
+    (P + "raw_header_lines_all_kept", "raw modes: every ordinary Name: value line of the application's header block (repeated names in any case, empty values) reaches the connection as an added header, all of them in order; depends on Gen.rawLineKept read from cgi_headers_parser::add_header"),
     (P + "cache_copy_identical", "copy_buf: bytes passed to the next buffer = copied_data() = bytes written, for every op sequence + close"),
     (P + "cache_copy_repeatable", "copied_data() asked a second time (store_page under a second key) returns the same page"),
     (P + "gzip_bookkeeping", "gzip_buf, any deflater/buffer size: deflater inputs in order = app bytes, Z_FINISH exactly once and last, bytes passed on = deflater outputs; inflate hypothesis => body decompresses to app bytes"),
@@ -160,18 +161,45 @@ def gen_case(rng, cfg, big_ok, idx):
         else:
             body_ops.append("o")
     if raw:
-        hdr = b"Content-Type: text/html\r\n"
+        lines = [b"Content-Type: text/html"]
         for _ in range(rng.randrange(0, 3)):
-            hdr += ("X-%s: %s\r\n" % (rand_token(rng), rand_token(rng, 1, 10))).encode()
+            lines.append(("X-%s: %s" % (rand_token(rng), rand_token(rng, 1, 10))).encode())
+        if rng.random() < 0.5:
+            # the application's own block with repeated names (every line must reach the client), in mixed case, and empty values
+            for _ in range(rng.randrange(2, 5)):
+                lines.append(("%s: %s=%s" % (rng.choice(("Set-Cookie", "Set-Cookie", "set-cookie", "SET-COOKIE")), rand_token(rng, 1, 4), rand_token(rng, 1, 8))).encode())
+            if rng.random() < 0.5:
+                for _ in range(rng.randrange(2, 4)):
+                    lines.append(("%s: %s" % (rng.choice(("Link", "link", "Vary", "VARY", "X-Dup", "x-dup")), rand_token(rng, 1, 10))).encode())
+            if rng.random() < 0.5:
+                lines.append(rng.choice((b"X-Trace:", b"X-Trace: ", b"X-Empty:")))
+                if rng.random() < 0.5:
+                    lines.append(b"X-Trace: " + rand_token(rng, 1, 6).encode())
+            first, rest = lines[0], lines[1:]
+            rng.shuffle(rest)
+            lines = [first] + rest
         if rng.random() < 0.2:
-            hdr += b"Status: 404 Not Found\r\n"
-        hdr += b"\r\n"
-        cut = rng.randrange(0, len(hdr) + 1) if rng.random() < 0.5 else len(hdr)
-        pre = ["x" + hdr[:cut].hex()] if cut else []
-        if cut < len(hdr):
-            pre.append("x" + hdr[cut:].hex())
-        if rng.random() < 0.3 and len(pre) == 2:
-            pre.insert(1, "f")
+            lines.insert(rng.randrange(1, len(lines) + 1), b"Status: 404 Not Found")
+            if rng.random() < 0.3:
+                lines.insert(rng.randrange(1, len(lines) + 1), b"status: 201 Created")
+        hdr = b"".join(l + b"\r\n" for l in lines) + b"\r\n"
+        r = rng.random()
+        if r < 0.25:
+            # written in pieces of 1, 2, 3, ... bytes
+            pre, pos, k = [], 0, 1
+            while pos < len(hdr):
+                pre.append("x" + hdr[pos:pos + k].hex())
+                if rng.random() < 0.1:
+                    pre.append("f")
+                pos += k
+                k += 1
+        else:
+            cut = rng.randrange(0, len(hdr) + 1) if r < 0.65 else len(hdr)
+            pre = ["x" + hdr[:cut].hex()] if cut else []
+            if cut < len(hdr):
+                pre.append("x" + hdr[cut:].hex())
+            if rng.random() < 0.3 and len(pre) == 2:
+                pre.insert(1, "f")
         body_ops = pre + body_ops
     elif proto.startswith("http") and not use_cache and "gz" not in opts and rng.random() < 0.15:
         # application announces the exact length itself
